@@ -263,6 +263,28 @@ func (w *Worker) intrinsic(s *State, f *Frame, name string, fn *ssa.Function, ar
 			return adv(lc)
 		case "Tid":
 			return adv(BV(64, uint64(s.cur)))
+		case "GuardAlt":
+			// GuardAlt(x, mu, alt, name): like Guard/GuardObj, but every writer also holds the plain mutex alt,
+			// so a read under alt alone is race-free as well; a write must hold both.
+			mp := args[1].(Iface).v.(Ptr)
+			ap := args[2].(Iface).v.(Ptr)
+			isRW := BV(64, 0)
+			if strings.Contains(fmt.Sprint(args[1].(Iface).t), "RWMutex") {
+				isRW = BV(64, 1)
+			}
+			id := 0
+			switch x := args[0].(Iface).v.(type) {
+			case Ptr:
+				id = x.id
+			case MapRef:
+				id = x.id
+			case SliceV:
+				id = x.arr.id
+			}
+			if id != 0 {
+				s.ghost[fmt.Sprintf("guard/%d", id)] = Tuple{mp.key(), args[3].(string), mp, isRW, ap}
+			}
+			return adv(nil)
 		case "Guard", "GuardObj":
 			// Guard(&variable, mutex, name): the variable's cell; GuardObj(x, mutex, name): the object x refers to
 			mp := args[1].(Iface).v.(Ptr)
